@@ -50,6 +50,11 @@ var UploadURLResponseSchema = arrow.NewSchema([]arrow.Field{
 // generate. Response: an Arrow IPC stream with one batch of (upload_url,
 // download_url, expires_at) rows.
 func (h *HttpServer) handleUploadURLInit(w http.ResponseWriter, r *http.Request) {
+	// Vending upload URLs is RPC-level work: it sits behind the authenticator
+	// like the unary, stream and introspection routes.
+	if auth := h.authenticate(w, r); auth == nil {
+		return
+	}
 	if h.uploadURLProvider == nil {
 		http.NotFound(w, r)
 		return
